@@ -558,8 +558,16 @@ fn with_row(x: &[Q], row: usize, v: Q) -> Option<Vec<Q>> {
     Some(y)
 }
 
+fn small_relu_like(rng: &mut Rng) -> AffTree<2> {
+    match rng.below(3) {
+        0 => schema::partial_ReLU(1, 0),
+        1 => schema::partial_hard_tanh(1, 0, -1.0, 1.0),
+        _ => schema::partial_leaky_ReLU(1, 0, 0.5),
+    }
+}
+
 pub fn schemas(rep: &mut Report, tier: Tier) {
-    rep.rule = "every schema generator for dims 1..=3 (argmax/class: 2..=4), every row / class, parameter values from pools (alpha, min<=max incl. min==max, lambda incl. 0, threshold/value, optional bounds), from_poly with/without else-branch, from_slice+remove_axes; tree function vs the textbook definition on the half-integer lattice (hits every breakpoint and tie); non-trivial: every (generator, parameters, dim) combination".into();
+    rep.rule = "every schema generator for dims 1..=3 (argmax/class: 2..=4), every row / class, parameter values from pools (alpha, min<=max incl. min==max, lambda incl. 0, threshold/value, optional bounds), from_poly with/without else-branch, from_slice + compose (once or twice) [+ infeasible_elimination] + remove_axes; tree function vs the textbook definition on the half-integer lattice (hits every breakpoint and tie); non-trivial: every (generator, parameters, dim) combination".into();
     rep.bound = "dims <= 3 (argmax/class <= 4); lattice [-3,3]^d step 1/2 (integer sub-lattice for d >= 3)".into();
     rep.exhaustive = true;
     let _ = tier;
@@ -668,7 +676,7 @@ pub fn schemas(rep: &mut Report, tier: Tier) {
         }
     }
     // from_poly and from_slice + remove_axes
-    for k in 0..60u64 {
+    for k in 0..240u64 {
         idx += 1;
         if rep.skip(idx) {
             continue;
@@ -707,9 +715,20 @@ pub fn schemas(rep: &mut Report, tier: Tier) {
             let val = (rng.below(7) as f64 - 3.0) / 2.0;
             let mut rp = vec![f64::NAN; 2];
             rp[ax] = val;
+            // half of the pipelines simplify the sliced tree first (fixing an axis makes branches infeasible: their removal leaves
+            // holes in the arena below live indices), some compose twice so that the arena is larger
+            let simplify = rng.chance(1, 2);
+            let twice = rng.chance(1, 3);
+            let g1 = small_relu_like(&mut rng);
             let res = guarded(|| {
                 let mut s = AffTree::<2>::from_slice(&arr1(&rp));
                 s.compose::<false, false>(&t0);
+                if twice {
+                    s.compose::<false, false>(&g1);
+                }
+                if simplify {
+                    s.infeasible_elimination();
+                }
                 let mut mask = vec![true; 2];
                 mask[ax] = false;
                 s.remove_axes(&Array1::from(mask)).map(|_| s)
@@ -719,12 +738,22 @@ pub fn schemas(rep: &mut Report, tier: Tier) {
             match res {
                 Err(pn) => rep.viol(idx, "panic", format!("slice pipeline panicked: {pn} | {d2}")),
                 Ok(Err(e)) => rep.viol(idx, "slice", format!("remove_axes returned {e:?} | {d2}")),
-                Ok(Ok(s)) => tree_fn_check(rep, idx, "from_slice+remove_axes", &s, 1, &|x| {
-                    let mut full = vec![Q::ZERO; 2];
-                    full[ax] = Q::from_f64(val).unwrap();
-                    full[1 - ax] = x[0];
-                    x0.eval(&full)
-                }, &lattice(1), &d2),
+                Ok(Ok(s)) => {
+                    let xg1 = xtree(&g1).unwrap();
+                    // evaluation itself must not panic (a node that kept its full-width matrix would)
+                    let probe = guarded(|| { for p in lattice(1) { let _ = s.evaluate(&to_arr(&p)); } });
+                    if let Err(pn) = probe {
+                        rep.viol(idx, "from_slice+remove_axes", format!("evaluating the sliced tree panicked: {pn} | {d2} simplify={simplify} twice={twice}"));
+                    } else {
+                        tree_fn_check(rep, idx, "from_slice+remove_axes", &s, 1, &|x| {
+                            let mut full = vec![Q::ZERO; 2];
+                            full[ax] = Q::from_f64(val).unwrap();
+                            full[1 - ax] = x[0];
+                            let y = x0.eval(&full)?;
+                            if twice { xg1.eval(&y) } else { Some(y) }
+                        }, &lattice(1), &format!("{d2} simplify={simplify} twice={twice}"))
+                    }
+                }
             }
         }
     }
@@ -923,6 +952,35 @@ pub fn distill(rep: &mut Report, tier: Tier) {
                 continue;
             }
         };
+        // C06 for distilled networks (no head, no precondition: the tree is total and the builder prunes after every activation unit):
+        // no node below the root with an empty path region, no single-branch decision, and a further elimination changes nothing
+        let has_head = model.iter().any(|l| matches!(l, L::Argmax | L::Class(_)));
+        if !has_head && pre.is_none() && model.iter().any(|l| !matches!(l, L::Lin(_))) {
+            if let Ok(xe) = xtree(&t) {
+                for (i, nd) in &xe.nodes {
+                    if *i == xe.root {
+                        continue;
+                    }
+                    if !crate::fm::feasible(&xe.closed_region(*i), xe.in_dim) {
+                        rep.viol(idx, "effective", format!("distilled tree keeps node {i} with an empty path region | {descr}"));
+                        break;
+                    }
+                    if !nd.isleaf && nd.children.iter().flatten().count() == 1 {
+                        rep.viol(idx, "effective", format!("distilled tree keeps decision {i} with a single branch | {descr}"));
+                        break;
+                    }
+                }
+                let mut t2 = t.clone();
+                if guarded(|| t2.infeasible_elimination()).is_ok() {
+                    if let Ok(xa2) = xtree(&t2) {
+                        let strip = |x: &XTree| x.nodes.iter().map(|(i, n)| (*i, n.children.clone(), n.parent)).collect::<Vec<_>>();
+                        if strip(&xa2) != strip(&xe) {
+                            rep.viol(idx, "idempotent", format!("a further infeasible_elimination changes the distilled tree ({} -> {} nodes) | {descr}", xe.nodes.len(), xa2.nodes.len()));
+                        }
+                    }
+                }
+            }
+        }
         if has_sigm {
             // inexact coefficients: compare the real evaluate() with the exact value in f64
             for x in lattice(d) {
